@@ -74,6 +74,8 @@ def cv(x):
         return 0
     if isinstance(x, int):
         return x
+    if type(x).__name__ == "_OOBRequest":      # Monitor.oob()'s private request object passing through
+        return f"req?:{cv(x.data)}"
     return f"?{type(x).__name__}"
 
 
